@@ -80,8 +80,8 @@ CLAIMS = {
    "Two variants share the wall budget of the check: the engine variant (query-sim: each client its own engine.QueryRunner on the shared semaphore) and the distributed variant (dist-sim: one shared distributed.QueryRunner with WithMaxConcurrent, failures after slot acquisition = resolver error, query safeguard, all hosts down; cancellations after a drawn delay; host replies take 0-2 s of simulated time)."),
  "C15": ("dist-sim", "exploration", "7.15",
    "deterministic simulation: real distributed query runner, API client querier (fan-out/fan-in) and HTTP client stack (retries, back-off, request time-out) over a simulated transport and fake clock; the seeded scheduler decides which in-flight request is answered next; results of several schedules compared with each other and with a reference merge",
-   "2-6 simulated hosts with generated results (rows that collide across hosts, empty results, different First/Last, statistics) and per-host fault scripts (delays, lost connection then success, 500/502/429 then success, permanent 500, partition until the request time-out, unreachable) are queried 3-4 times through the real runner with MaxConcurrent 1..N under different seeded schedules plus once through RunStreaming; all merged results must be equal to each other and to the reference merge of the hosts whose final outcome is success (rows as multiset with summed counters, totals, hits, statistics, interfaces, per-host statuses, First/Last, status code); partial results of the streaming run never exceed the final result.",
-   "The hosts' own query engine is not run behind the transport (their answers are generated results serialised with the real marshalers). Row order, timing fields and error texts (only presence) are not compared. Malformed bodies are not injected."),
+   "2-6 simulated hosts with generated results (rows that collide across hosts, empty results, different First/Last, statistics) and per-host fault scripts (delays, lost connection then success, 500/502/429 then success, permanent 500, partition until the request time-out, unreachable, 200 with a cut-off body, connection reset while the body is read) are queried 3-4 times through the real runner with MaxConcurrent 1..N under different seeded schedules plus once through RunStreaming; all merged results must be equal to each other and to the reference merge of the hosts whose final outcome is success (rows as multiset with summed counters, totals, hits, statistics, interfaces, per-host statuses, First/Last, status code); partial results of the streaming run never exceed the final result.",
+   "The hosts' own query engine is not run behind the transport (their answers are generated results serialised with the real marshalers). Row order, timing fields and error texts (only presence) are not compared. Malformed bodies (cut-off JSON, connection reset while the body is read) are injected as permanent faults only: whether the client retries them is its policy, not part of the property."),
  "C20": ("capture-sim", "exploration", "7.20",
    "deterministic simulation: real capture manager with simulated packet sources, fake clock (testing/synctest), simulated disk and a seeded scheduler at every seam; class-wise conservation oracle (orientation-tolerant) over all written blocks plus in-memory flows",
    "One interface, 1-6 generated conversations (both IP versions, TCP/UDP/ICMP/ESP/GRE, both directions, common and ephemeral ports, fragments, truncated headers, non-IP frames) delivered in bursts at drawn simulated instants (some exactly on rotation ticks) while the real rotation ticker, status calls and live snapshots run; the scheduler interleaves packet delivery, the capture loop, lock/unlock, rotation and write-out. Oracle: per class of conversations sharing candidate stored keys the four counters summed over all blocks (read back through the real reader) plus the in-memory flows equal the parsed packets; every record key is a candidate key of a delivered conversation (no source port, right family); no empty record; no conversation in two records of one block.",
